@@ -272,7 +272,7 @@ pub fn nest_depths(quick: bool) -> Vec<usize> {
 
 pub fn run(ctx: &Ctx) -> i32 {
     let mut total = Report::new();
-    let cfg = util::ForkCfg { threads: ctx.threads, mem_bytes: 3 << 30, case_timeout_s: 60, died_signature: "C01/abort".into() };
+    let cfg = util::ForkCfg { threads: ctx.threads, mem_bytes: 3 << 30, case_timeout_s: 60, died_signature: "C01/abort".into(), resource_is_violation: false };
     // 1. bytes
     let bl = if ctx.quick() { 3 } else { 4 };
     for len in 0..=bl {
@@ -306,7 +306,7 @@ pub fn run(ctx: &Ctx) -> i32 {
     total.merge(r);
     // 5. nesting: one forked worker per (form, depth)
     let depths = nest_depths(ctx.quick());
-    let ncfg = util::ForkCfg { threads: ctx.threads, mem_bytes: 6 << 30, case_timeout_s: 120, died_signature: "C01/native-stack/source-nesting".into() };
+    let ncfg = util::ForkCfg { threads: ctx.threads, mem_bytes: 6 << 30, case_timeout_s: 120, died_signature: "C01/native-stack/source-nesting".into(), resource_is_violation: false };
     let mut r = util::par_forked(&ncfg, NEST_FORMS.len() * depths.len(), |sh| {
         let mut rep = Report::new();
         let (form, depth) = (sh.index / depths.len(), depths[sh.index % depths.len()]);
